@@ -348,6 +348,18 @@ theorem spec_independent_of_schedule {c : Dag} {P : Reg → List NodeId} {L L' :
     have h2 := (sched_depth g hS' (hS'.input_not_key g hpl)).2 r hl
     exact_mod_cast h1.unique h2
 
+/-- **the specification as a function of the circuit's wires.**  `wireOpList c` is computed from what `reg_gate_history` returns
+    for every register and from the node operations alone: the operation nodes in the canonical topological order (number of proper
+    ancestors by the model's breadth-first `ancestors`, then index), each with its operation as wired.  On every circuit satisfying
+    DagInv with plain operations all metrics equal their specifications on this list. -/
+theorem metrics_eq_spec_of_wires {c : Dag} {P : Reg → List NodeId} (g : Good c P) (hpl : AllPlain c) :
+    MetricsMeetSpec c (wireOpList c) :=
+  metrics_eq_spec_on_any_schedule g hpl (compSched_sched g)
+
+/-- the canonical schedule is a schedule (so the list above is a topological order of the circuit's operations) -/
+theorem canonical_schedule_is_schedule {c : Dag} {P : Reg → List NodeId} (g : Good c P) : Sched c P (compSched c) :=
+  compSched_sched g
+
 /-! ### the theorems for `add`-built circuits are the special case "schedule = creation order" -/
 
 /-- a circuit built by `add` has the schedule "nodes in creation order" whose operation list is `seq` itself — so §2–§5 are
@@ -377,6 +389,13 @@ theorem metrics_after_history (ne np nc : Nat) (es : List C12.Edit) (hok : C12.H
       ∀ L, Sched (C12.run (Dag.init ne np nc) es) P L → MetricsMeetSpec (C12.run (Dag.init ne np nc) es) (L.map (·.2)) := by
   obtain ⟨⟨P, g⟩, hh⟩ := C12.groupHyp_on_every_reachable_circuit ne np nc es hok
   exact ⟨P, g, sched_exists g, fun L hS => metrics_eq_spec_on_any_schedule g hh.plain hS⟩
+
+/-- … in closed form: the metrics of the reached circuit are the specifications evaluated on `wireOpList` of it, a computable
+    function of the wires `reg_gate_history` returns and of the node operations -/
+theorem metrics_after_history_of_wires (ne np nc : Nat) (es : List C12.Edit) (hok : C12.HistOKg (Dag.init ne np nc) es) :
+    MetricsMeetSpec (C12.run (Dag.init ne np nc) es) (wireOpList (C12.run (Dag.init ne np nc) es)) := by
+  obtain ⟨⟨P, g⟩, hh⟩ := C12.groupHyp_on_every_reachable_circuit ne np nc es hok
+  exact metrics_eq_spec_of_wires g hh.plain
 
 /-- … and the wires `P` of the reached circuit are what `reg_gate_history` returns, register by register — the wires are
     determined by the circuit (`C12.wires_are_determined`) and are obtained from those of the previous circuit by the list
@@ -518,6 +537,9 @@ def histSchedule : List (NodeId × Op) :=
 /-- it is a schedule of the reached circuit (kernel-evaluated checker, sound by `schedB_sound`) … -/
 theorem histSchedule_is_schedule : ∃ P, Good histCircuit P ∧ Sched histCircuit P histSchedule :=
   schedB_sound' (C12.groupHyp_on_every_reachable_circuit 2 1 1 hist hist_ok).1 (by decide)
+
+/-- it is the canonical schedule computed from the wires (kernel-evaluated) -/
+example : compSched histCircuit = histSchedule := by decide +kernel
 
 /-- … so by `metrics_after_history` all metrics of the reached circuit equal the specifications on its operation list -/
 example : MetricsMeetSpec histCircuit (histSchedule.map (·.2)) := by
